@@ -164,6 +164,13 @@ def rec_scene(seed):
         if len(labs) > 1:
             order = list(range(len(labs))); rng.shuffle(order)
             pair('row_reordering_changes_nothing_else', canon_rows(rows_of(catalog(sc, has_err, has_bkg, order=order, lbw=lbw), has_err, has_bkg)), canon_rows(rows))
+        # a selection of a selection (re-ordered, then sub-selected) still reports each label's own row
+        if len(labs) > 2:
+            order = list(range(len(labs))); rng.shuffle(order)
+            sub = [len(labs) - 1, 0] if len(labs) > 2 else [0]
+            c2 = catalog(sc, has_err, has_bkg, order=order, lbw=lbw)[sub]
+            want = {labs[order[k]] for k in sub}
+            pair('row_reordering_changes_nothing_else', canon_rows(rows_of(c2, has_err, has_bkg)), canon_rows([r for r in rows if r['label'] in want]))
         # read order: fluxes first vs moments first (a fresh catalog each)
         c_a = catalog(sc, has_err, has_bkg, lbw=lbw); _ = c_a.segment_flux, c_a.area, c_a.min_value
         c_b = catalog(sc, has_err, has_bkg, lbw=lbw); _ = c_b.moments, c_b.centroid
